@@ -233,6 +233,11 @@ fn other_print_routes(rv: &RV, real: &Value, o: &Opts, ro: &json_syntax::print::
         if by_stripped != printed {
             bad.push(format!("<Stripped<Meta<Value, _>> as Print>::print_with gives {by_stripped:?}, Value gives {printed:?}"));
         }
+        // formatting parameters of the caller are ignored or applied to the whole text
+        let with_params = format!("{:>7.3}", real.print_with(ro.clone()));
+        if with_params != printed && with_params != format!("{:>7.3}", printed) {
+            bad.push(format!("Display under {{:>7.3}} gives {with_params:?}, the plain text is {printed:?}"));
+        }
         let unit = rp::indent_unit(o);
         for k in 1..=2usize {
             let got = At(real, ro, k).to_string();
@@ -677,13 +682,46 @@ fn c08_value(rv: &RV, t: &mut Tally) {
     let real = bridge::to_value(rv);
     let want = rp::compact(rv);
     t.evals += 1;
-    let forms = [
-        ("compact_print().to_string()", real.compact_print().to_string()),
-        ("to_string()", real.to_string()),
-        ("format!(\"{}\")", format!("{}", real)),
-        ("String::from(value)", String::from(real.clone())),
-        ("print_with(Options::compact())", real.print_with(json_syntax::print::Options::compact()).to_string()),
-    ];
+    let forms = match explore::guard(|| {
+        [
+            ("compact_print().to_string()", real.compact_print().to_string()),
+            ("to_string()", real.to_string()),
+            ("format!(\"{}\")", format!("{}", real)),
+            ("String::from(value)", String::from(real.clone())),
+            ("print_with(Options::compact())", real.print_with(json_syntax::print::Options::compact()).to_string()),
+        ]
+    }) {
+        Ok(f) => f,
+        Err(p) => {
+            t.violation("", format!("compact printing panicked: {p}"), json!({"kind": "compact", "value": rv.show()}));
+            return;
+        }
+    };
+    // Display under formatting parameters of the caller (width, fill, alignment, precision):
+    // the output is one piece of text - the parameters are either ignored or applied to the
+    // compact text as a whole; applied piecewise they change strings and break escapes
+    macro_rules! spec {
+        ($fmt:literal) => {{
+            t.evals += 2;
+            match explore::guard(|| (format!($fmt, real), format!($fmt, real.compact_print()))) {
+                Ok((a, b)) => {
+                    let whole = format!($fmt, want.as_str());
+                    for (name, got) in [("Display", a), ("compact_print() Display", b)] {
+                        if got != want && got != whole {
+                            t.violation("", format!("{name} under {:?} = {got:?}: neither the compact text {want:?} nor that text formatted as a whole", $fmt), json!({"kind": "compact", "value": rv.show()}));
+                        }
+                    }
+                }
+                Err(p) => t.violation("", format!("Display under {:?} panicked: {p}", $fmt), json!({"kind": "compact", "value": rv.show()})),
+            }
+        }};
+    }
+    spec!("{:4}");
+    spec!("{:>30}");
+    spec!("{:.1}");
+    spec!("{:*^9.3}");
+    spec!("{:#}");
+    spec!("{:08}");
     for (name, got) in forms {
         if got != want {
             t.violation("", format!("{name} = {got:?}, reference serializer gives {want:?}"), json!({"kind": "compact", "value": rv.show()}));
